@@ -42,6 +42,8 @@ type TypeOps struct {
 	Has   func(w *World) bool
 	Count func(w *World) int
 	Filt  func(w *World, fn int, kind int) eventbus.SubscribeOption
+	// Prep creates (and caches) the handler closure for (fn, uid) ahead of time
+	Prep func(w *World, fn, uid int)
 	// reflect types of the two handler forms, as the panic handler reports them
 	PlainHT, CtxHT reflect.Type
 	// IDOf extracts the id from an event value of this type passed as any
@@ -83,6 +85,13 @@ func mkOps[T evC](idx int) *TypeOps {
 		h := cs[fn-numSites](func(c context.Context, e T) { w.invoke(idx, fn, uid, c, idOf(e)) })
 		w.handlers[k] = h
 		return h
+	}
+	o.Prep = func(w *World, fn, uid int) {
+		if isCtxFn(fn) {
+			ctxh(w, fn, uid)
+		} else {
+			plain(w, fn, uid)
+		}
 	}
 	o.Sub = func(w *World, fn, uid int, opts []eventbus.SubscribeOption) error {
 		if isCtxFn(fn) {
